@@ -1,4 +1,4 @@
-"""C13 check specification (work in progress)."""
+"""C13 check specification."""
 
 SPEC = {
     'id': 'C13',
@@ -10,5 +10,26 @@ SPEC = {
         {'pkg': 'execute', 'src': 'harness/execute/c13_test.go', 'test': 'TestVerif_C13_exec', 'fakes': True, 'extra_libs': ['vmutate'],
          'sinks': {'C13_exec': 'sweep_judge'}, 'n': {'quick': 1000000, 'thorough': 1000000}},
     ],
-    'rule': 'WIP', 'trusted': [], 'assumptions': [], 'modelled': '', 'level_text': 'WIP', 'level_note': 'WIP',
+    'rule': 'exhaustive single-site mutation sweep: honest traffic of both plugins (commit: 4 scenarios select / build / build with a leader-supplied RMN bundle '
+            'while RMN is disabled / wait; execute: the three phases; N=4 oracles) is serialised, every node of every JSON document (observation of one oracle, query, '
+            'previous outcome, outcome fed to Reports, report, report info) is enumerated and mutated in 9 ways (null, empty, zero, 2^64-1, negative, duplicate element, '
+            'delete, type confusion, big / odd string), and every callback that consumes the document is driven under recover() and a 3 s watchdog: ValidateObservation, '
+            'then Outcome and Reports only with observations that individually passed validation, Observation / Query on mutated previous outcomes and queries, '
+            'ShouldAccept / ShouldTransmit on mutated reports; plus a raw byte stream (truncated, random, single-byte corrupted, tiny literals) at every entry point. '
+            'One case per (document, site, mutation, callback); the observable is the termination code (returned / panicked / watchdog). The RMN controller\'s response '
+            'handling is swept by the C06 harness (22 observation and 6 signature corruptions, nil sub-messages, garbage bodies). non-trivial: every case; distinct by digest',
+    'trusted': ['encoding/json, protobuf, math/big, hex.DecodeString, big.Int.SetString never panic on any input (library oracles)',
+                'logging calls with %v of arbitrary values do not panic',
+                'contract-reader results are those of the real ccipChainReader guards (nil big integers are turned into errors there) — the fakes answer within that contract'],
+    'assumptions': ['absence of panics is PROVED only for the modelled dereference / index / loop sites; the sweep validates that the modelled set is complete for single-site '
+                    'mutations of the swept traffic, it is a test, not a proof',
+                    'hangs are modelled as loops whose trip count is not bounded by the input size and missing context checks, not as scheduler behaviour'],
+    'modelled': 'custom JSON unmarshalers with explicit slice bounds, execute state decoding + PluginState.Next, getMessagesOutcome range loop, Median / aggregators over nil big '
+                'integers with the validation that guards them, RMN controller response handling (C06 model), observation truncation (C17 model)',
+    'level_text': 'PARTIAL. Proof: 14 Coq theorems over res-monad (Ok / Err / Panic / Spin) models of the panic and spin sites — unmarshalers never panic for any byte string; any '
+                  'previous-outcome state string is rejected or advanced; the repaired message loop is total and refines the original; validated aggregates never dereference nil; '
+                  'the RMN controller never panics and returns by the deadline for every event list; truncation is total — with witness theorems for the pre-repair code '
+                  '(F09, F10, F12a, F19a, F19b, F20). Correspondence: the exhaustive single-site mutation sweep (about 30 000 cases) must find no panic and no hang.',
+    'level_note': 'Partial by nature: a theorem excludes panics only at modelled sites; code the model abstracts (logging, third-party libraries, goroutine scheduling) is covered '
+                  'by the sweep only. Trusted: Coq kernel, models, library oracles. No axioms.',
 }
